@@ -418,7 +418,7 @@ def sweep_case(ck, drv, r, case, tier, tag, only=None):
     ck.count(f"never-faulted-passes:{len(traj)}")
     if only is None:
         points = [(k, i, kind) for k, (_, b) in enumerate(traj) for i in range(len(b["log"])) for kind in KINDS]
-        cap = 90 if tier == "quick" else 240
+        cap = 90 if tier == "quick" else 120
         ck.count("fault-points-available", len(points))
         if len(points) > cap:
             points = r.sample(points, cap)
@@ -503,6 +503,88 @@ def sweep_case(ck, drv, r, case, tier, tag, only=None):
     return violations
 
 
+# --------------------------------------------------------------------------- kind lookup (plural omitted)
+
+_LOOKUP_RUNS = [0]
+
+
+def lookup_scenarios(ck):
+    """`apiConfig.plural` omitted: the first evaluation asks the API for the kind's plural (`kind_lookup.py`).  That
+    request raising, never answering, or not knowing the kind must be contained like any other fault.  One fresh
+    prepare per scenario (the looked-up plural is memoised on the prepared Function)."""
+    import celpy
+    import koreo_util as ku
+    from koreo.workflow.reconcile import reconcile_workflow
+    from koreo.workflow.structure import Workflow
+    from koreo.cache import get_resource_from_cache
+    from vloop import run_virtual
+
+    limit = wf_run.step_timeout()
+    bad = []
+    for kind in ("ok", "raise", "hang", "unknown-kind"):
+        class LCluster(Cluster):
+            async def lookup_kind(self, k):
+                self.log.append({"i": self.calls, "method": "LOOKUP", "name": k, "fault": None if kind == "ok" else kind,
+                                 "tag": None, "applied": False})
+                if kind == "raise":
+                    raise RuntimeError("injected lookup failure")
+                if kind == "hang":
+                    await asyncio.Event().wait()
+                if kind == "unknown-kind":
+                    raise ValueError("no such kind")
+                return (None, "gadgets", True)
+
+            async_lookup_kind = lookup_kind
+
+        ku.reset()
+        _LOOKUP_RUNS[0] += 1
+        kname = f"Gadget{_LOOKUP_RUNS[0]}"     # kr8s keeps a class (and its plural) per kind name for the whole process
+
+        async def offer():
+            await ku.offer_resource_function("lk.fn", {
+                "apiConfig": {"apiVersion": gen_wf.API_VERSION, "kind": kname, "name": "lk", "namespace": gen_wf.NS},
+                "resource": {"spec": {"want": 1}}, "return": {"site": "lk"}})
+            await ku.offer_value_function("lk.after", {"return": {"got": "=inputs"}})
+            await ku.offer_workflow("lk", {"steps": [
+                {"label": "st0", "ref": {"kind": "ResourceFunction", "name": "lk.fn"},
+                 "condition": {"type": "Cst0", "name": "st0"}},
+                {"label": "st1", "ref": {"kind": "ValueFunction", "name": "lk.after"},
+                 "inputs": {"u": "=steps.st0"}, "condition": {"type": "Cst1", "name": "st1"}}]})
+
+        ku.run(offer())
+        wf = get_resource_from_cache(resource_class=Workflow, cache_key="lk")
+        cl = LCluster()
+        raised = res = None
+        try:
+            res, elapsed, _ = run_virtual(reconcile_workflow(
+                api=cl, workflow_key="lk", owner=("ns", dict(ku.OWNER_REF)), trigger=celpy.json_to_cel({}), workflow=wf))
+        except (KeyboardInterrupt, SystemExit):
+            raise
+        except BaseException as e:
+            raised, elapsed = repr(e), 0.0
+        ck.evaluated()
+        ck.count(f"lookup:{kind}")
+        if raised:
+            bad.append((kind, f"kind lookup {kind}: reconcile_workflow did not return normally: {raised}"))
+            continue
+        conds = [[c.get("type"), c.get("reason")] for c in res.conditions]
+        cls = ku.outcome_class(res.result)
+        if elapsed > limit + EPS:
+            bad.append((kind, f"kind lookup {kind}: the pass took {elapsed} virtual seconds"))
+        if kind == "ok":
+            if cls != "retry" or [m for m in (e["method"] for e in cl.log)] != ["LOOKUP", "GET", "POST"]:
+                bad.append((kind, f"kind lookup ok: expected a create, got {cls} / {[e['method'] for e in cl.log]}"))
+            continue
+        if cls not in ("retry", "permFail"):
+            bad.append((kind, f"kind lookup {kind}: overall outcome is '{cls}'"))
+        if len(conds) != 3 or conds[0][1] not in ERR_REASONS or conds[1][1] == "Ready" or conds[2] == ["Ready", "Ready"]:
+            bad.append((kind, f"kind lookup {kind}: conditions {conds} claim readiness / do not report the failed step"))
+        if any(e["method"] != "LOOKUP" for e in cl.log):
+            bad.append((kind, f"kind lookup {kind}: API requests after the failed lookup: {[e['method'] for e in cl.log]}"))
+    ku.reset()
+    return bad
+
+
 def report(ck, case, found):
     """shrink the workflow (the oracle alone decides while shrinking) and record the violation"""
     seq, what = found[0]
@@ -558,6 +640,8 @@ def run(tier: str) -> int:
             ck.count("corpus")
             if found:
                 ck.violate({"case": c01.compact(case), "faults": found[0][0], "corpus": f.name}, found[0][1])
+        for kind, what in lookup_scenarios(ck):
+            ck.violate({"scenario": "kind-lookup", "fault": kind}, what)
         n = 40 if tier == "quick" else 500
         for _ in range(n):
             for attempt in range(6):
@@ -618,6 +702,11 @@ def replay(path: str) -> int:
         items = [{"case": {"case": data["case"],
                            "faults": {"start": data.get("start", 0), "faults": data.get("faults") or []}}}]
     for v in items:
+        if v["case"].get("scenario") == "kind-lookup":
+            found = [x for x in lookup_scenarios(Check("C09", "replay")) if x[0] == v["case"].get("fault")]
+            print("replay: kind-lookup", v["case"].get("fault"), "::", found[:2])
+            rc = rc or (1 if found else 0)
+            continue
         case, seq = v["case"]["case"], v["case"].get("faults")
         ck = Check("C09", "replay")
         found = sweep_case(ck, None, rng("replay"), case, "quick", "replay", only=[seq] if seq and seq.get("faults") else None)
